@@ -218,6 +218,18 @@ Theorem initial_moles_from_partial_pressures :
 Proof. exact T_initial_moles_from_partial_pressures. Qed.
 Print Assumptions initial_moles_from_partial_pressures.
 
+(* --- histories on one instance: phase_init - called by phase_alloc for a new phase and by phase_store for an EXISTING phase
+       that a PHASES block redefines - resets everything the gas code caches in the phase record: pr_si_f (log10 phi, subtracted
+       by calc_gas_pressures for ideal gases too), pr_phi := 1, pr_p, pr_tk, pr_a, pr_b, pr_alpha, pr_aa_sum2, pr_in := false,
+       T_c, P_c, omega, p_soln_x, moles_x, fraction_x --- *)
+Theorem phase_redefinition_resets_cached_gas_state :
+  (forall f, In f ["pr_si_f"; "pr_p"; "pr_tk"; "pr_a"; "pr_b"; "pr_alpha"; "pr_aa_sum2"; "t_c"; "p_c"; "omega"; "p_soln_x"; "moles_x";
+                   "fraction_x"; "lk"; "in"]%string -> exists q, In (f, q) phase_init_consts /\ (q == 0)%Q) /\
+  (exists q, In ("pr_phi"%string, q) phase_init_consts /\ (q == 1)%Q) /\ In ("pr_in"%string, "false"%string) phase_init_others /\
+  (exists c, In (c, "phase_init(phase_ptr)"%string) phase_store_reinit_calls) /\ (1 <= phase_alloc_init_calls)%nat.
+Proof. exact T_phase_redefinition_resets_cached_gas_state. Qed.
+Print Assumptions phase_redefinition_resets_cached_gas_state.
+
 (* --- a fixed-pressure gas phase is switched on iff the sum f of the equilibrium partial pressures exceeds the fixed
        pressure (by 1e-7) or it already holds more than MIN_TOTAL moles; gas_in starts FALSE and this is the only place of the
        fixed-pressure branch that sets it --- *)
